@@ -670,6 +670,10 @@ func (g *c05Gen) next(o c05Obs) c05Op {
 			}
 			return g.opWithdraw(g.holder(), g.user(), g.around(o.bals[0]))
 		case x < 64:
+			if o.restr && o.bals[1].IsPositive() && r.Intn(2) == 0 {
+				// the holder of every right moves its own coins
+				return g.opTransfer(1, 1, g.target(), g.around(o.bals[1]))
+			}
 			if f := g.holderOfCoins(o); f > 0 {
 				adm := f
 				if r.Intn(3) == 0 {
@@ -760,7 +764,7 @@ func TestC05(t *testing.T) {
 	e.addrs[99] = authtypes.NewModuleAddress(markertypes.ModuleName)
 	e.addrs[100] = authtypes.NewModuleAddress(govtypes.ModuleName)
 
-	nHist := scale(300, 6000)
+	nHist := scale(500, 20000)
 	if s := os.Getenv("VERIF_C05_HISTORIES"); s != "" {
 		fmt.Sscanf(s, "%d", &nHist)
 	}
